@@ -19,7 +19,7 @@ PROPERTY = "C05"
 RULE = (
     "finite product: 39 probe signatures ({V,L,N}^n -> {V,L,N}, n<=2) + built-ins + an "
     "unknown name x 12 syntactic positions x 21 argument shapes per parameter; plus "
-    "integers at bound-1/bound/bound+1 for 3 configured ranges in every index/slice slot "
+    "integers at bound-1/bound/bound+1 for 9 configured ranges (symmetric, asymmetric, one-sided; plus the negated bounds) in every index/slice slot "
     "at top level and inside filters; compile() must succeed exactly when the reference "
     "typing judgement says well-typed and in range; non-trivial = ill-typed or out-of-range "
     "inputs (the half of the equivalence tests rarely sample); distinct by construction"
@@ -104,7 +104,7 @@ def range_env(lo, hi):
     return _ENV[key]
 
 
-RANGES = [(rt.MINI, rt.MAXI), (-3, 3), (0, 0)]
+RANGES = [(rt.MINI, rt.MAXI), (-3, 3), (0, 0), (-3, 10), (-10, 3), (0, 5), (-5, 0), (2, 7), (-7, -2)]
 
 
 def range_queries(i):
@@ -219,7 +219,8 @@ def run_shard(desc):
                     do(f"$[?{a} {op} {b}]")
     else:
         for lo, hi in RANGES:
-            ints = sorted({lo - 1, lo, lo + 1, hi - 1, hi, hi + 1, 0, 1, -1})
+            ints = sorted({lo - 1, lo, lo + 1, hi - 1, hi, hi + 1, 0, 1, -1, -lo, -hi, -lo - 1, -hi - 1, -lo + 1,
+                           -hi + 1})
             for i in ints:
                 for q in range_queries(i):
                     do(q, lo, hi)
